@@ -84,7 +84,7 @@ pub proof fn lemma_pow256_16() ensures pow256(16) == 0x1_0000_0000_0000_0000_000
 
 // L3 on 128-bit values: big-endian byte order is numeric order, and be16 is injective
 pub proof fn lemma_be16_order(x: u128, y: u128)
-    ensures lex_lt(be16(x), be16(y)) == (x < y), (be16(x) == be16(y)) == (x == y),
+    ensures lex_lt(be16(x), be16(y)) == (x < y), (be16(x) == be16(y)) == (x == y), //# lemma.L3.be16_order
 {
     lemma_pow256_16();
     lemma_be_order(x as nat, y as nat, 16);
